@@ -103,6 +103,14 @@ def stages(tier, rng, only=None, prop=None):
                      lambda: _cases(grids.datasets(3, 2)[::3] + [ac.random_dataset(rng, 4, 4, nmin=3)
                                                                   for _ in range(100 if tier == "quick" else 1000)],
                                     PRECISE, False, 60), _nt, kwikrun.init, post=kwikrun.flatten, aux=aux))
+    def lex_kwik():
+        cs = _cases(grids.datasets(3, 2)[::3] + [ac.random_dataset(rng, 4, 4, nmin=3) for _ in range(60)], SCHEMES[:1],
+                    False, 60)
+        for k, c in enumerate(cs):
+            c["lex"] = k % 5
+        return cs
+    out.append(Stage("lexicographic_penalties", "Trace_Kwik", kwikrun.run_all_schedules, lex_kwik, _nt, kwikrun.init,
+                     post=kwikrun.flatten, aux=aux))
     out.append(Stage("wide", "Trace_Kwik", kwikrun.run_all_schedules,
                      lambda: _cases(wide(rng, 3 if tier == "quick" else 12), SCHEMES, False, 2), _nt, kwikrun.init,
                      post=kwikrun.flatten, aux=aux, chunk=4))
